@@ -23,7 +23,7 @@ pub struct SourceSpec {
     pub zero_run: usize,
     /// explicit bytes of the stream after the zero run
     pub prefix: Vec<u8>,
-    /// continuation: byte p = low byte of H(key, p)
+    /// continuation: byte p = low byte of H(key, p); key 0 = all zero after the prefix
     pub key: u64,
     pub fault: Option<SourceFault>,
 }
@@ -37,6 +37,9 @@ impl SourceSpec {
         let p = p - self.zero_run;
         if p < self.prefix.len() {
             self.prefix[p]
+        } else if self.key == 0 {
+            // key 0: the stream is all zero after the explicit prefix (a short key followed by nothing)
+            0
         } else {
             (h2(self.key, p as u64) >> 17) as u8
         }
